@@ -278,9 +278,15 @@ def offline(ctx, res):
         if stdin_text is not None and mode != "evaluate-stdin":
             stdin_data = stdin_text.encode()
         out_path = None
+        stale = None
         if mode == "output-file":
             out_path = os.path.join(tmpdir, f"o{idx}.json")
             args += ["-o", out_path]
+            if r.randrange(2):
+                # the --output path already holds an (older, longer) outputs object
+                stale = json.dumps({"stale_key": list(range(60)), "older": {"text": "x" * r.randrange(0, 300)}}) + "\n"
+                with open(out_path, "w") as f:
+                    f.write(stale)
         elif mode == "unwritable-output":
             out_path = os.path.join(tmpdir, "no_such_dir", f"o{idx}.json")
             args += ["-o", out_path]
@@ -294,12 +300,15 @@ def offline(ctx, res):
         nontrivial = 1 if (case["expected"] and (flag_docs or stdin_doc is not None)) else 0
         objs = find_json_objects(stdout)
         file_obj = None
+        file_text = None
         if out_path and os.path.exists(out_path):
             try:
                 with open(out_path) as f:
-                    file_obj = json.load(f)
+                    file_text = f.read()
+                file_obj = json.loads(file_text)
             except Exception:
                 file_obj = "unparsable"
+        desc["output_file_preexisting"] = stale is not None
         if mode == "unwritable-output":
             # the outputs object cannot be written: must not exit 0 silently... (statement: emits iff success) -
             # only the failing direction is claimed: a failing script must still fail
@@ -322,7 +331,9 @@ def offline(ctx, res):
                     return viols, desc, nontrivial
                 got = objs[0]
             exp = case["expected"]
-            if not isinstance(got, dict):
+            if got == "unparsable":
+                viols.append(("output-file-not-one-object", "the --output file does not hold exactly one JSON object", dict(desc, file_content=(file_text or "")[:300])))
+            elif not isinstance(got, dict):
                 viols.append((f"outputs-missing mode={mode}", "no outputs object was emitted", desc))
             elif list(got.keys()) != list(exp.keys()):
                 viols.append(("outputs-key-sequence", "keys of the outputs object are not the declared names in declaration order", dict(desc, expected_keys=list(exp.keys()), got_keys=list(got.keys()))))
@@ -335,7 +346,10 @@ def offline(ctx, res):
                 viols.append((f"exit-0-on-failure kind={kind}", "exit status 0 although a statement failed / an input was invalid", desc))
             if objs:
                 viols.append(("outputs-object-on-failure", "an outputs object is emitted although the run failed", desc))
-            if file_obj is not None:
+            if stale is not None:
+                if file_text != stale:
+                    viols.append(("outputs-file-changed-on-failure", "the existing --output file was modified although the run failed", dict(desc, file_content=(file_text or "")[:300])))
+            elif file_obj is not None:
                 viols.append(("outputs-file-on-failure", "the --output file was written although the run failed", desc))
             if rr["rc"] != 0 and not (stdout.strip() or stderr.strip()):
                 viols.append(("no-error-report", "the run failed without reporting an error", desc))
